@@ -187,55 +187,7 @@ func runC04(c *Ctx) {
 	const tok = "Protocol.input.ltransactions"
 	checkGuarded(c, "C04.lock", fns, trans, tok, "Protocol.input.transactions")
 
-	// ---- C04.order
-	wp := P.Func("rtmp", "(*Protocol).WritePacket")
-	if R.Anchor(wp != nil, "C04.order", "rtmp.(*Protocol).WritePacket") {
-		reg := P.Carriers(wp, "mapupdate:Protocol.input.transactions")
-		var outs []ssa.Instruction
-		for _, pat := range []string{"call:(*bufio.Writer).Flush", "call:io.Copy", "call:(*bufio.Writer).Write", "call:invoke io.Writer.Write"} {
-			outs = append(outs, P.Carriers(wp, pat)...)
-		}
-		seen := map[ssa.Instruction]bool{}
-		counts := map[string]int{}
-		if len(reg) == 0 {
-			R.Fail("C04.order", "rtmp|(*Protocol).WritePacket|register", P.Pos(wp.Pos()),
-				"WritePacket never registers the request in Protocol.input.transactions", nil)
-		}
-		for _, o := range outs {
-			if seen[o] {
-				continue
-			}
-			seen[o] = true
-			ok := false
-			var regPos []string
-			for _, r := range reg {
-				regPos = append(regPos, P.InstrPos(r))
-				if r != o && core.Precedes(r, o) {
-					ok = true
-				}
-			}
-			key := ordKey(counts, "rtmp|(*Protocol).WritePacket|transport-write")
-			R.Check(ok, "C04.order", key, P.InstrPos(o),
-				"request registered before this transport write on every path",
-				"bytes of a request can reach the transport before the request is registered in the transaction table (a fast peer's response finds no matching request)",
-				map[string]interface{}{"transport_write": describeInstr(o), "registration_sites": regPos})
-		}
-		// and never again afterwards: a registration that can follow a transport write re-inserts a request the reader may
-		// already have matched and deleted, so the same response could be matched twice
-		counts2 := map[string]int{}
-		for _, r := range reg {
-			late := ""
-			for _, o := range outs {
-				if o != r && core.Precedes(o, r) {
-					late = P.InstrPos(o)
-				}
-			}
-			key := ordKey(counts2, "rtmp|(*Protocol).WritePacket|registration-not-after-write")
-			R.Check(late == "", "C04.order", key, P.InstrPos(r),
-				"the request is registered only before its bytes can reach the transport",
-				"the request is (also) registered after the transport write at "+late+": if the peer answered in between, the reader already matched and removed it, and it is inserted again - a later response with this id is matched a second time", nil)
-		}
-	}
+	checkRegistrationOrder(c, "C04.order")
 
 	// ---- C04.txn (shared with C03.txn)
 	checkTxn(c, "C04.txn")
@@ -626,4 +578,59 @@ func diffKeys(a, b map[string]map[string]bool) []string {
 	}
 	sort.Strings(out)
 	return out
+}
+
+// checkRegistrationOrder: in WritePacket the request is registered before any transport write and never after one.
+func checkRegistrationOrder(c *Ctx, rule string) {
+	P, R := c.P, c.R
+	// ---- C04.order
+	wp := P.Func("rtmp", "(*Protocol).WritePacket")
+	if R.Anchor(wp != nil, rule, "rtmp.(*Protocol).WritePacket") {
+		reg := P.Carriers(wp, "mapupdate:Protocol.input.transactions")
+		var outs []ssa.Instruction
+		for _, pat := range []string{"call:(*bufio.Writer).Flush", "call:io.Copy", "call:(*bufio.Writer).Write", "call:invoke io.Writer.Write"} {
+			outs = append(outs, P.Carriers(wp, pat)...)
+		}
+		seen := map[ssa.Instruction]bool{}
+		counts := map[string]int{}
+		if len(reg) == 0 {
+			R.Fail(rule, "rtmp|(*Protocol).WritePacket|register", P.Pos(wp.Pos()),
+				"WritePacket never registers the request in Protocol.input.transactions", nil)
+		}
+		for _, o := range outs {
+			if seen[o] {
+				continue
+			}
+			seen[o] = true
+			ok := false
+			var regPos []string
+			for _, r := range reg {
+				regPos = append(regPos, P.InstrPos(r))
+				if r != o && core.Precedes(r, o) {
+					ok = true
+				}
+			}
+			key := ordKey(counts, "rtmp|(*Protocol).WritePacket|transport-write")
+			R.Check(ok, rule, key, P.InstrPos(o),
+				"request registered before this transport write on every path",
+				"bytes of a request can reach the transport before the request is registered in the transaction table (a fast peer's response finds no matching request)",
+				map[string]interface{}{"transport_write": describeInstr(o), "registration_sites": regPos})
+		}
+		// and never again afterwards: a registration that can follow a transport write re-inserts a request the reader may
+		// already have matched and deleted, so the same response could be matched twice
+		counts2 := map[string]int{}
+		for _, r := range reg {
+			late := ""
+			for _, o := range outs {
+				if o != r && core.Precedes(o, r) {
+					late = P.InstrPos(o)
+				}
+			}
+			key := ordKey(counts2, "rtmp|(*Protocol).WritePacket|registration-not-after-write")
+			R.Check(late == "", rule, key, P.InstrPos(r),
+				"the request is registered only before its bytes can reach the transport",
+				"the request is (also) registered after the transport write at "+late+": if the peer answered in between, the reader already matched and removed it, and it is inserted again - a later response with this id is matched a second time", nil)
+		}
+	}
+
 }
